@@ -236,8 +236,11 @@ def gen_ecdsa_frag():
     for i, st in enumerate(body):
         if isinstance(st, ast.Assign) and isinstance(st.targets[0], ast.Name):
             idx[st.targets[0].id] = i
-    rejects = [(i, st) for i, st in enumerate(body) if isinstance(st, ast.If) and not st.orelse
-               and [ast.unparse(x) for x in st.body] == ["return False"]]
+    all_rejects = [(i, st) for i, st in enumerate(body) if isinstance(st, ast.If) and not st.orelse
+                   and [ast.unparse(x) for x in st.body] == ["return False"]]
+    # the test for the point at infinity (after the point computation) is handled below
+    inf_tests = [(i, st) for (i, st) in all_rejects if ast.unparse(st.test) == "xy == ellipticcurve.INFINITY"]
+    rejects = [x for x in all_rejects if x not in inf_tests]
     if len(rejects) != 2:
         raise TranslationError("verifies: expected exactly two `if ...: return False` range tests, found %d" % len(rejects))
     tr = FuncTr("Z")
@@ -257,6 +260,19 @@ def gen_ecdsa_frag():
     if len(pts) != 1 or [ast.unparse(x) for x in pts[0].body] != ["xy = G.mul_add(u1, self.point, u2)"] \
             or [ast.unparse(x) for x in pts[0].orelse] != ["xy = u1 * G + u2 * self.point"]:
         raise TranslationError("verifies: point computation changed")
+    # u1*G + u2*Q = INFINITY (whose x() is None): `if xy == ellipticcurve.INFINITY: return False`
+    if len(inf_tests) != 1:
+        raise TranslationError("verifies: expected exactly one `if xy == ellipticcurve.INFINITY: return False` "
+                               "between the point computation and xy.x(), found %d" % len(inf_tests))
+    if not any(isinstance(nd, ast.Import) and any(a.name == "ellipticcurve" for a in nd.names) or
+               isinstance(nd, ast.ImportFrom) and nd.level == 1 and nd.module is None and
+               any(a.name == "ellipticcurve" and a.asname is None for a in nd.names) for nd in tree.body):
+        raise TranslationError("ecdsa.py: ellipticcurve is not the sibling module")
+    inf_ret = inf_tests[0][1].body[0].value
+    if not (isinstance(inf_ret, ast.Constant) and isinstance(inf_ret.value, bool)):
+        raise TranslationError("verifies: the infinity test does not return a boolean constant")
+    out += ("(* if xy == ellipticcurve.INFINITY: return %s *)\n"
+            "Definition verifies_infinity_result : bool := %s.\n" % (inf_ret.value, "true" if inf_ret.value else "false"))
     v = _assign_value(body, "v", "verifies")
     v2, hits = _subst(v, {"xy.x()": "x"})
     if hits["xy.x()"] != 1:
@@ -268,7 +284,7 @@ def gen_ecdsa_frag():
         raise TranslationError("verifies: final return changed")
     _check_free(last.value, ["v", "r"], "verifies result")
     out += _defn("verifies_result", ["v", "r"], "bool", tr.cond(last.value), ast.unparse(last))
-    order = [idx["c"], idx["u1"], idx["u2"], body.index(pts[0]), idx["v"], len(body) - 1]
+    order = [idx["c"], idx["u1"], idx["u2"], body.index(pts[0]), inf_tests[0][0], idx["v"], len(body) - 1]
     if order != sorted(order) or len(set(order)) != len(order):
         raise TranslationError("verifies: statement order changed")
 
